@@ -35,6 +35,32 @@ def make_case(cid, rng, schema, root, n_ops, disk):
         full.append(op)
         marks.append(mark)
 
+    if v2:
+        # states that only the public table API reaches: individual nullable columns cleared or set on their own
+        # (e.g. bpmAnalyzed present while bpm is NULL), on up to three tracks
+        NULLABLE = ["play_order", "bpm", "year", "bitrate", "bpm_analyzed", "file_bytes", "title", "artist", "album", "genre",
+                    "comment", "label", "composer", "remixer", "key", "time_last_played", "played_indicator",
+                    "streaming_source", "uri", "third_party_source_id"]
+        for k in range(3):
+            add({"op": "trk_all_ids", "bind": "tid%d" % k, "bind_index": k}, None)
+        for _ in range(rng.randrange(4, 12)):
+            col = rng.choice(NULLABLE)
+            val = None
+            if rng.random() < 0.4:
+                val = {"bpm": 123, "bpm_analyzed": "405ec00000000000", "year": 1999, "key": 5, "bitrate": 320, "play_order": 3,
+                       "file_bytes": 1000, "played_indicator": 9, "third_party_source_id": 4,
+                       "time_last_played": 1600000000 * 10 ** 9}.get(col, "7374796c65")
+            add({"op": "trk_set_col", "id": "$tid%d" % rng.randrange(3), "col": col, "value": val}, None)
+    else:
+        # 1.x: the same kind of state through plain SQL (foreign writers leave such rows)
+        for _ in range(rng.randrange(2, 6)):
+            sql = rng.choice(["UPDATE Track SET bpm = NULL WHERE id = (SELECT MIN(id) FROM Track WHERE path IS NOT NULL)",
+                              "UPDATE Track SET bpmAnalyzed = NULL WHERE id = (SELECT MAX(id) FROM Track WHERE path IS NOT NULL)",
+                              "UPDATE Track SET bpmAnalyzed = 99.5, bpm = NULL WHERE id = (SELECT MIN(id) FROM Track WHERE path IS NOT NULL)",
+                              "DELETE FROM MetaData WHERE type = 1 AND id = (SELECT MIN(id) FROM Track WHERE path IS NOT NULL)",
+                              "DELETE FROM MetaDataInteger WHERE type = 5",
+                              "UPDATE Track SET length = NULL, year = NULL"])
+            add({"op": "raw_exec", "sql": sql}, None)
     add({"op": "counters"}, "c0")
     add({"op": "rawdump", "digest": True, "checks": False}, "d0")
     if disk:
